@@ -31,23 +31,35 @@ def trace_filter_vm(code):
 
 def solo(w, text):
     w.reset()
+    if text in EXTRAS:
+        EXTRAS[text](w)
+        return [e for e in w.net.log if e[0] != 'flush'], None
     res = w.run_script(text)
     assert res.accepted, (text, res.errors)
     return [e for e in res.trace if e[0] != 'flush'], (res.abort or res.raised)
 
 
+# activities that are not scripts: the discovery thread of the real program (tag -> callable(world))
+EXTRAS = {
+    '<discover>': lambda w: w.light_set.discover(),
+    '<refresh>': lambda w: w.light_set.refresh(),
+}
+
+
 def execute(w, texts, chooser, vm_only=False):
-    """texts: ((tag, script), ...) -> dict(per-tag projections, verdict, errors)"""
+    """texts: ((tag, script), ...) -> dict(per-tag projections, verdict, errors); a script spelled like a key
+    of EXTRAS stands for that activity"""
     sched = vthreads.Scheduler(chooser, horizon=1e7, max_steps=400000,
                                trace_filter=trace_filter_vm if vm_only else trace_filter, stall=False)
     shim = vthreads.ShimThreadingModule(sched, [t for t, _ in texts])
     w.reset()
     w.net.log.tagger = lambda: sched.current.name if sched.current is not None else 'main'
     nerr = len(w.log_rec.errors)
-    jobs = [(tag, ScriptJob.from_string(text)) for tag, text in texts]
+    jobs = [(tag, ScriptJob.from_string(text) if text not in EXTRAS else None, text) for tag, text in texts]
 
     def main():
-        ths = [shim.Thread(target=job.execute) for tag, job in jobs]
+        ths = [shim.Thread(target=(job.execute if job is not None else (lambda f=EXTRAS[text]: f(w))))
+               for tag, job, text in jobs]
         for t in ths:
             t.start()
         for t in ths:
